@@ -302,7 +302,17 @@ const MAX_NESTING: usize = 200;
 
 fn nested_too_deeply(line: &str) -> bool {
     let (mut depth, mut run, mut in_string) = (0usize, 0usize, false);
-    for c in line.chars() {
+    let chars: Vec<char> = line.chars().collect();
+    let mut i = 0;
+    while i < chars.len() {
+        let c = chars[i];
+        i += 1;
+        // a character literal such as ';' or '"' is neither a comment nor a string
+        if !in_string && c == '\'' && i + 1 < chars.len() && chars[i + 1] == '\'' {
+            i += 2;
+            run = 0;
+            continue;
+        }
         match c {
             '"' => in_string = !in_string,
             _ if in_string => {}
